@@ -194,3 +194,13 @@ pub fn run_file(_env: &Env, rest: &[String]) -> i32 {
     }
     0
 }
+
+/// dev-load FILE : Story::new on a document, print the result
+pub fn load_file(_env: &Env, rest: &[String]) -> i32 {
+    let doc = std::fs::read_to_string(&rest[0]).unwrap();
+    match bladeink::story::Story::new(doc.trim_end()) {
+        Ok(_) => println!("loaded"),
+        Err(e) => println!("rejected: {e}"),
+    }
+    0
+}
